@@ -39,6 +39,14 @@ def st_expr(nvars, depth=2, allow_where=True):
     return st.recursive(base, ext, max_leaves=2 + depth)
 
 
+def _shift_vars(e, k):
+    if not isinstance(e, list):
+        return e
+    if e and e[0] == "v":
+        return ["v", e[1] + k]
+    return [e[0]] + [_shift_vars(x, k) for x in e[1:]]
+
+
 def st_param(kind, nvars, first=None):
     """argument expression for a distribution parameter kind"""
     e = st_expr(nvars, 1)
@@ -165,7 +173,17 @@ def st_static(draw, nparams, depth, cfg, ret="f", max_stmts=2, min_stmts=1):
         raws_types.append(gfi.rtype(callee) if isinstance(gfi.rtype(callee), str) else "x")
         nvars += 1
     if ret == "pair":
-        r = ["pair", draw(st_expr(nvars, 1)), draw(st_expr(nvars, 1))]
+        # scan kernels: half of the time the carry is a function of the parameters only (so that the
+        # documented precondition of index edits -- the carry does not change -- can hold)
+        mode = draw(st.sampled_from(["params", "any", "no-carry"]))
+        if mode == "params":
+            first = draw(st_expr(nparams, 1))
+        elif mode == "any" or nvars < 2:
+            first = draw(st_expr(nvars, 1))
+        else:
+            # the new carry is a function of the scanned input and the choices, not of the old carry
+            first = _shift_vars(draw(st_expr(nvars - 1, 1)), 1)
+        r = ["pair", first, draw(st_expr(nvars, 1))]
     else:
         r = draw(st_expr(nvars, 2))
     return {"k": "static", "n": nparams, "stmts": stmts, "ret": r}
